@@ -62,6 +62,7 @@ def generate(tier, seed):
             dmin = amin / (min(thetas) * 1000.0) * rng.dyadic(1.05, 1.5, 6)
             dmax = max(dmin * 1.5, amax / (max(thetas) * 1000.0) * rng.choice([0.5, 2.0]))
             c['drange'] = [dmin, dmax]
+        c['law_reused'] = (len(cases) % 3 == 1) and c['form'] != 'file'
         cases.append(c)
     return cases
 
@@ -94,6 +95,10 @@ def impl(case):
                 f.write(i)
             f.close()
         law_at = [float(x) for x in np.asarray(ext.get_av(np.array(pkg['wav']) * u.micron))]
+        if case.get('law_reused'):
+            # the caller goes on to use its Extinction object for another law (public setter) after the fits were made: the fits were made
+            # with the law as it was, and that is the law their curves have to be reddened with
+            ext.chi = ext.chi * (1.0 + ext.wav.to(u.micron).value) ** 2
         try:
             figs = plot(arg, output_dir=None, select_format=('N', case['nsel']), sed_type=case['mode'], memmap=case['memmap'])
         except Exception as e:
